@@ -384,6 +384,40 @@ def tdiv_r (minus : Nat) (s : St) (rem num den : Nat) : Option St :=
 
 def mpz_tdiv_r (s : St) (rem num den : Nat) : Option St := tdiv_r 0 s rem num den
 
+/-! ### mpz_sqrt — mpz/sqrt.c -/
+
+/-- mpn_sqrtrem (sp, NULL, np, nn), np[nn-1] != 0: the contract: reads np[0,nn); writes the (nn+1)/2 limbs of ⌊√N⌋ to sp -/
+def mpn_sqrt_S (s : St) (sp : Ptr) (np : Src) (nn : Nat) : St :=
+  (s.chk (s.rdOkS np nn)).wr sp (toLimbs ((nn + 1) / 2) (Nat.sqrt (val (s.rdS np nn))))
+
+/-- sqrt.c:81-83 -/
+def sqrtTail (s : St) (root : Nat) (op : Src) (op_size root_size : Nat) : St :=
+  let s := mpn_sqrt_S s (s.PTR root) op op_size                               -- :81
+  s.setSize root root_size                                                    -- :83
+
+/-- mpz_sqrt (root, op), sqrt.c:27-88; `none` = SQRT_OF_NEGATIVE.  `retain` = the old block of root is kept until the end when
+    it is also op (`free_me`, sqrt.c:55-59). -/
+def sqrt_ (retain : Bool) (s : St) (root op : Nat) : Option St :=
+  let op_size := s.SIZ op                                                     -- sqrt.c:36
+  if op_size ≤ 0 then                                                         -- :37
+    if op_size < 0 then none                                                  -- :39-40
+    else some (s.setSize root 0)                                              -- :41-42
+  else
+    let n := op_size.natAbs
+    let root_size := (n + 1) / 2                                              -- :46 "accurate after this simple calculation"
+    let op_ptr := s.PTR op                                                    -- :49
+    if s.ALLOC root < root_size then                                          -- :51
+      if root == op && retain then                                            -- :53 root_ptr == op_ptr
+        let old := (s.h root).buf                                             -- :55-56 free_me
+        some (sqrtTail (freshBlock s root root_size) root (Src.tmp old 0) n root_size)   -- :61-63
+      else some (sqrtTail (freshBlock s root root_size) root (Src.ptr op_ptr) n root_size)   -- :59, 61-63
+    else if root == op then                                                   -- :68
+      let c := tmp_copy s op_ptr n                                            -- :71-74
+      some (sqrtTail c.2 root (Src.tmp c.1 0) n root_size)
+    else some (sqrtTail s root (Src.ptr op_ptr) n root_size)
+
+def mpz_sqrt (s : St) (root op : Nat) : Option St := sqrt_ true s root op
+
 /-! ### mpf: a destination of `PREC + 1` limbs that is never reallocated — mpf/urandomb.c
 
     An `mpf_t` owns a block of `_mp_prec + 1` limbs (mpf/init2.c) for its whole life; every function must keep its stores inside
